@@ -237,6 +237,21 @@ func c05Case(c *Ctx) {
 				c.Sample(map[string]interface{}{"recipe": w.String(), "list_size": size, "script": "last alternative at every draw", "tokens": abbreviateToks(tokRecs(g.Pw))})
 			}
 			retained = append(retained, kept{g.Pw, tokRecs(g.Pw), g.Pw.String()})
+			// the caller copies the recipe by value and gives the copy another constant separator
+			if w.SepKind == "char" && run%2 == 0 {
+				cp := *b.Rec
+				w2 := w
+				w2.SepChar = []string{"+", "", "__", "語"}[run/2%4]
+				cp.SeparatorChar = w2.SepChar
+				if cg := runGen(&cp, nil); cg.Pw != nil {
+					c.Exec(1)
+					c.Count("value_copies_checked", 1)
+					if cl, msg := checkWLPassword(w2, b.Kept, cg.Pw, nil); cl != "" {
+						c.Violate(cl, fmt.Sprintf("a value copy of recipe %s with SeparatorChar %q: %s", w.String(), w2.SepChar, msg), map[string]interface{}{"recipe": w.String(), "copy_separator": w2.SepChar, "tokens": abbreviateToks(tokRecs(cg.Pw))})
+						break
+					}
+				}
+			}
 			// another recipe of a different shape on the same list, then look at the earlier passwords again
 			other := spg.NewWLRecipe(1+(w.Length+run)%7, b.List)
 			other.Capitalize = spg.CapScheme(schemes[(run+1)%5])
